@@ -19,6 +19,7 @@ mod props {
     pub mod c01;
     pub mod c02;
     pub mod c17;
+    pub mod c19;
 }
 
 use driver::{harness_error, Env};
@@ -95,6 +96,7 @@ fn main() {
             "C01" => props::c01::replay(&env, &v.replay),
             "C02" => props::c02::replay(&env, &v.replay),
             "C17" => props::c17::replay(&env, &v.replay),
+            "C19" => props::c19::replay(&env, &v.replay),
             _ => harness_error(&format!("no replayer for {cmd}")),
         }
     } else {
@@ -102,6 +104,7 @@ fn main() {
             "C01" => props::c01::run(&env),
             "C02" => props::c02::run(&env),
             "C17" => props::c17::run(&env),
+            "C19" => props::c19::run(&env),
             _ => harness_error(&format!("unknown command {cmd}")),
         }
     };
